@@ -33,7 +33,7 @@ RULE = (
     "alone, or interleaved with include (with/without context, name lists, ignore missing, inside loops) / import / from-import "
     "of a macro library, or as block bodies of a 2-3 level extends chain with super()/self.block() calls; data makes some "
     "pieces empty and some non-ASCII. Every entry point (render, generate, stream unbuffered and buffered with every size "
-    "2..8, dump to path / BytesIO / StringIO with 2 codecs drawn from 11 codec/error-handler pairs incl. BOM codecs, make_module, template.module; the async "
+    "2..8, dump to path / BytesIO / StringIO with 2 codecs drawn from 18 codec/error-handler pairs incl. BOM and stateful (iso2022, hz, utf-7) codecs; one case in ten is a template that yields no piece, make_module, template.module; the async "
     "counterparts in an async environment) is compared with render, and the buffered chunks with the chunk rule; then two "
     "rounds with empty data and changed environment globals on the same Template objects (every entry point incl. "
     "make_module() / make_module({}) must follow the change). "
@@ -43,18 +43,25 @@ RULE = (
 ASSUMPTIONS = [
     "generate() itself defines the pieces (the chunk rule is checked relative to them); render is the reference text",
     "templates are deterministic (no random / time / id in output), so separate renderings are comparable",
-    "dumped bytes must equal render().encode(codec, errors) for BOM-less codecs; for utf-16 / utf-32 / utf-8-sig the bytes "
-    "must decode to the rendered text (whether an empty text gets a BOM is not specified)",
+    "dumped bytes must equal render().encode(codec, errors) (incl. the BOM of an empty rendering and the closing escape "
+    "sequence of stateful codecs); only for utf-7, whose incremental encoder in Python is stateless per call, the bytes are "
+    "compared after decoding",
     "error agreement is by exception type",
 ]
 
 SIZES = (2, 3, 4, 5, 6, 7, 8)
 CODECS = (("utf-8", "strict"), ("utf-16-le", "strict"), ("utf-16-be", "strict"), ("utf-32-be", "strict"),
           ("latin-1", "xmlcharrefreplace"), ("ascii", "replace"), ("ascii", "ignore"), ("cp1252", "backslashreplace"),
-          ("utf-16", "strict"), ("utf-32", "strict"), ("utf-8-sig", "strict"))
-# codecs that start the output with a byte-order mark: whether an *empty* text still gets one is not documented, so the
-# dumped bytes are compared after decoding (fixed finding F29: one BOM per piece made the file decode to other text)
-BOM_CODECS = ("utf-16", "utf-32", "utf-8-sig")
+          ("utf-16", "strict"), ("utf-32", "strict"), ("utf-8-sig", "strict"),
+          # stateful codecs: escape sequences / shift state must be closed at the end of the stream
+          ("iso2022_jp", "replace"), ("iso2022_jp", "strict"), ("iso2022_kr", "replace"), ("hz", "replace"),
+          ("iso2022_jp_2", "replace"), ("shift_jis", "replace"), ("utf-7", "strict"))
+# The dumped BYTES must equal render().encode(codec, errors): the file is the encoded rendering, incl. the BOM of an
+# empty rendering and the closing escape sequence of a stateful codec.  (Python's own incremental encoders produce
+# exactly the one-shot bytes for every split of the text for all codecs above except utf-7.)
+# utf-7: Python's incremental utf-7 encoder is stateless per call, so piecewise encoding legitimately differs from the
+# one-shot bytes ('+ZeU-+Zyw-' vs '+ZeVnLA-'); only there the bytes are compared after decoding.
+DECODE_ONLY_CODECS = ("utf-7",)
 
 _state = {}
 
@@ -142,6 +149,13 @@ def check_case(case):
     else:
         pieces = None
         same("generate", pieces_o)
+    partial = []  # what the template yields before it raises (an encoded dump may fail on this text first)
+    if ref[0] != "ok":
+        try:
+            for piece in t.generate(dict(data)):
+                partial.append(piece)
+        except Exception:  # noqa: BLE001 - the type was compared just above
+            pass
     joined = lambda it: "".join(it)  # noqa: E731
     same("''.join(stream)", _outcome(lambda: joined(t.stream(dict(data)))))
     for size in SIZES:
@@ -161,9 +175,20 @@ def check_case(case):
     try:
         os.makedirs(workdir, exist_ok=True)
         for k, (codec, errors) in enumerate(encodings):
-            bom = codec in BOM_CODECS
-            fin = (lambda b: b.decode(codec)) if bom else (lambda b: b)  # noqa: E731
-            want = ("ok", ref[1] if bom else ref[1].encode(codec, errors)) if ref[0] == "ok" else ref
+            soft = codec in DECODE_ONLY_CODECS
+            fin = (lambda b: b.decode(codec)) if soft else (lambda b: b)  # noqa: E731
+            also = None
+            if ref[0] != "ok":
+                want = ref
+                # the pieces before the template error may be unencodable: whether the encoder or the template fails
+                # first depends on buffering, both are correct
+                if _outcome(lambda: "".join(p for p in partial if isinstance(p, str)).encode(codec, errors))[0] == "raise":
+                    also = ("raise", "UnicodeEncodeError")
+            elif soft:
+                want = ("ok", ref[1])
+            else:
+                # a text the codec cannot encode under this error handler: dump must raise the same exception type
+                want = _outcome(lambda: ref[1].encode(codec, errors))
             bufsize = SIZES[(len(src) + k) % len(SIZES)] if k % 2 else None
             path = os.path.join(workdir, "dump-%d.bin" % k)
 
@@ -175,7 +200,8 @@ def check_case(case):
                 with open(path, "rb") as f:
                     return fin(f.read())
 
-            same("dump(path, encoding=%r, errors=%r, buffer=%r)" % (codec, errors, bufsize), _outcome(to_path), want)
+            got = _outcome(to_path)
+            same("dump(path, encoding=%r, errors=%r, buffer=%r)" % (codec, errors, bufsize), want if got == also else got, want)
 
             def to_bytesio():
                 fp = io.BytesIO()
@@ -185,7 +211,8 @@ def check_case(case):
                 s.dump(fp, encoding=codec, errors=errors)
                 return fin(fp.getvalue())
 
-            same("dump(BytesIO, encoding=%r, errors=%r)" % (codec, errors), _outcome(to_bytesio), want)
+            got = _outcome(to_bytesio)
+            same("dump(BytesIO, encoding=%r, errors=%r)" % (codec, errors), want if got == also else got, want)
         path = os.path.join(workdir, "dump-default.bin")
 
         def to_path_default():
@@ -363,6 +390,8 @@ def check_case(case):
             labels.add("has_empty_piece")
         if any(ord(ch) > 127 for p in pieces for ch in p):
             labels.add("non_ascii")
+        if any(ord(ch) > 0x2e80 for p in pieces for ch in p):
+            labels.add("cjk_text")
         nontrivial = ne >= 3 and em >= 1
         if nontrivial:
             labels.add("nontrivial")
@@ -377,7 +406,7 @@ def check_case(case):
 def _strategies():
     from hypothesis import strategies as st
 
-    strs = st.sampled_from(["", "", "", "p", "q", "é€", "名", "<b>", "x y"])
+    strs = st.sampled_from(["", "", "", "p", "q", "é€", "名", "<b>", "x y", "日本", "語", "한글", "中文"])
     scalar = st.one_of(strs, strs, st.integers(0, 3), st.lists(st.one_of(strs, st.integers(0, 2)), max_size=3))
     seq = st.one_of(st.lists(st.one_of(strs, st.integers(0, 2)), max_size=4),
                     st.lists(st.lists(st.one_of(strs, st.integers(0, 2)), min_size=2, max_size=2), max_size=3),
@@ -413,8 +442,16 @@ def _strategies():
 
     @st.composite
     def tsets(draw, depth, nodes):
-        shape = draw(st.sampled_from(["plain", "plain", "modules", "modules", "inherit", "inherit"]))
+        shape = draw(st.sampled_from(["plain", "plain", "plain", "modules", "modules", "modules", "inherit", "inherit", "inherit", "silent"]))
         prog = draw(G.programs(depth, nodes, errors=False))
+        if shape == "silent":
+            # a template that yields no piece at all: empty source, or only assignments / definitions / comments
+            prog = [s for s in prog if s[0] in ("set", "nsnew", "macro", "setblock")][: draw(st.integers(0, 3))]
+            d = draw(data())
+            encs = draw(st.lists(st.sampled_from(CODECS), min_size=2, max_size=2))
+            src = G.print_program(bounded(prog, d)) + draw(st.sampled_from(["", "{# c #}", "{% if false %}x{% endif %}"]))
+            return {"shape": shape, "templates": {"main": src}, "main": "main", "data": d, "encodings": [list(e) for e in encs],
+                    "rounds": [draw(data())]}
         # a few plain outputs of pool names / constants so that most templates have several pieces, some of them empty
         for _ in range(draw(st.integers(0, 6))):
             e = draw(st.sampled_from([["name", "a"], ["name", "b"], ["name", "c"], ["name", "d"], ["str", ""], ["str", "q"],
@@ -501,7 +538,7 @@ def floors(total, tier):
     n = max(1, total.evaluations)
     msgs = []
     for name, lo in (("nontrivial", 0.3), ("has_empty_piece", 0.3), ("non_ascii", 0.1), ("shape_modules", 0.15), ("shape_inherit", 0.15),
-                     ("render_ok", 0.6), ("rounds_differ", 0.3)):
+                     ("render_ok", 0.6), ("rounds_differ", 0.3), ("shape_silent", 0.04), ("cjk_text", 0.05)):
         if lab.get(name, 0) < lo * n:
             msgs.append("%s %d/%d < %d%%" % (name, lab.get(name, 0), n, lo * 100))
     return "; ".join(msgs) or None
